@@ -119,4 +119,10 @@ TEXT = {
     level_text="Generated request sequences put every special name form into every name-carrying field from every depth; the effect on the host is observed directly by snapshotting the area outside the export after every step.",
     level_note="Trusted: the host file system and os.Lstat/ReadFile for the snapshot. Reads outside that leave no trace in results are not observable.",
  ),
+ "C19": dict(
+    technique="model-based property testing (rapid histories) of the ufs server against a twin directory driven by the equivalent direct OS calls; tree comparison after every step",
+    design_ref="DESIGN.md section 4, C19",
+    level_text="Stateful generated histories with the oracle the property itself names (the direct OS operation); outcome, data and the whole exported tree are compared after each step.",
+    level_note="Trusted: the host kernel as reference, the per-fid bookkeeping in harness/ufsx/c19.go (paths, open handles).",
+ ),
 }
